@@ -6,6 +6,7 @@ Each rule re-lexes the text, performs *all* of its applications and returns the 
 log of what it did.  Sub-expressions are copied verbatim, so an edit inside a rewritten
 construct is carried into the verified text.
 """
+import re
 from .rustlex import lex
 
 KEEP_DERIVES = {"Clone", "Copy", "PartialEq", "Eq", "Hash", "PartialOrd", "Ord"}
@@ -1304,6 +1305,38 @@ def nconcat2(src, log):
         log.append("N7 [a, b].concat() -> vx_concat2(a, b)")
 
 
+def nresize(src, log):
+    """`PLACE.resize(N, V);` (PLACE a field path) -> `vx_resize_u64(&mut PLACE, N, V);` (std Vec::resize: truncate or pad with V).
+    Generic in N and V: a changed size expression is carried into the verified text."""
+    pat = re.compile(r"(?<![\w.])((?:\w+\.)+\w+|\w+)\.resize\(")
+    out, pos = "", 0
+    while True:
+        m = pat.search(src, pos)
+        if not m:
+            return out + src[pos:]
+        toks = lex(src)
+        k = next((i for i, t in enumerate(toks) if t.start == m.end() - 1), None)
+        if k is None or toks[k].mate < 0:
+            out += src[pos:m.end()]; pos = m.end(); continue
+        close = toks[k].mate
+        parts = _split_args(src, toks, k)
+        if len(parts) != 2:
+            out += src[pos:m.end()]; pos = m.end(); continue
+        out += src[pos:m.start()] + f"vx_resize_u64(&mut {m.group(1)}, {parts[0]}, {parts[1]})"
+        pos = toks[close].end
+        log.append("nresize PLACE.resize(n, v) -> vx_resize_u64(&mut PLACE, n, v)")
+
+
+def ncopyrange(src, log):
+    """`PLACE[A..B].copy_from_slice(&SRC);` -> `vx_copy_range(&mut PLACE, A, B, &SRC);` (std: copy SRC over PLACE[A..B]; panics
+    unless the range lies inside PLACE and SRC has B - A elements -- obligations of the call).  Generic in A, B, SRC."""
+    pat = re.compile(r"(?<![\w.])((?:\w+\.)+\w+|\w+)\[([^\[\];]+?)\.\.([^\[\];]+?)\]\.copy_from_slice\(&(\w+)\)")
+    def rep(m):
+        log.append("ncopyrange PLACE[a..b].copy_from_slice(&src) -> vx_copy_range(&mut PLACE, a, b, &src)")
+        return f"vx_copy_range(&mut {m.group(1)}, {m.group(2).strip()}, {m.group(3).strip()}, &{m.group(4)})"
+    return pat.sub(rep, src)
+
+
 def n19_range_rev_map_find(src, log):
     """`(A..=B).rev().map(|K| { BODY }).find(|M| PRED)`  ->  downward loop with early exit
          { let mut __vx_fK = None; let mut __vx_kK = B; while __vx_kK >= A { let K = __vx_kK; let __vx_mK = { BODY };
@@ -1745,6 +1778,10 @@ def normalise(src, rules, log, ctx=None):
             src = nblockpush(src, log)
         elif r == "nconcat2":
             src = nconcat2(src, log)
+        elif r == "nresize":
+            src = nresize(src, log)
+        elif r == "ncopyrange":
+            src = ncopyrange(src, log)
         elif r.startswith("nordinal:"):
             src = nordinal(src, log, r.split(":", 1)[1])
         elif r == "nhoist":
